@@ -11,10 +11,11 @@ ap.add_argument("--tier", default="quick")
 ap.add_argument("--patch-dir", default=None, help="also run the seeded/<id>/patch.diff changes")
 ap.add_argument("--workers", type=int, default=1, help="mutants run in parallel (each check then gets 16/workers jobs)")
 ap.add_argument("--save", action="store_true", help="merge the verdicts into selftest/results.json")
+ap.add_argument("--equivalents", action="store_true", help="run selftest/equivalents.json instead: semantics-preserving rewrites, expected verdict: no VIOLATION line")
 a = ap.parse_args()
-muts = json.load(open(os.path.join(VERIF, "selftest", "mutants.json")))
+muts = json.load(open(os.path.join(VERIF, "selftest", "equivalents.json" if a.equivalents else "mutants.json")))
 seeded_dir = os.path.join(VERIF, "seeded")
-if os.path.isdir(seeded_dir):
+if os.path.isdir(seeded_dir) and not a.equivalents:
     for d in sorted(os.listdir(seeded_dir)):
         meta = os.path.join(seeded_dir, d, "meta.json")
         if os.path.exists(meta):
@@ -67,15 +68,22 @@ def _one(m, print):
         for pid in props:
             r = subprocess.run([os.path.join(VERIF, "check"), pid, "--tier", a.tier], env=env, capture_output=True, text=True)
             lines = [l for l in r.stdout.splitlines() if l.startswith(("VIOLATION", "  obligation", "CHECKER", "UNDECIDED"))]
+            if a.equivalents:
+                hit = r.returncode != 1 and not any(l.startswith("VIOLATION") for l in r.stdout.splitlines())   # quiet = good
+                verdicts.append((pid, r.returncode, hit, lines[:4]))
+                continue
             hit = r.returncode == 1 and (not m.get("expect") or any(m["expect"] in l for l in lines))
             verdicts.append((pid, r.returncode, hit, [l for l in lines if m.get("expect", "") in l][:2] + lines[:2]))
-        ok = any(v[2] for v in verdicts)
-        print(f"{'KILLED ' if ok else 'MISSED '} {m['id']}  ({time.time()-t0:.0f}s)")
+        ok = all(v[2] for v in verdicts) if a.equivalents else any(v[2] for v in verdicts)
+        if a.equivalents:
+            print(f"{'QUIET  ' if ok else 'ALARM  '} {m['id']}  ({time.time()-t0:.0f}s)")
+        else:
+            print(f"{'KILLED ' if ok else 'MISSED '} {m['id']}  ({time.time()-t0:.0f}s)")
         for pid, rc, hit, lines in verdicts:
             print(f"    {pid}: exit={rc}")
             for l in lines:
                 print("      " + l.replace(d, "<repo>").replace(s, "<scratch>")[:220])
-        return {"verdict": "killed" if ok else "missed", "property": m["property"], "secs": round(time.time() - t0),
+        return {"verdict": ("quiet" if ok else "alarm") if a.equivalents else ("killed" if ok else "missed"), "property": m["property"], "secs": round(time.time() - t0),
                 "checks": [{"property": pid, "exit": rc, "lines": [l.replace(d, "<repo>").replace(s, "<scratch>")[:300] for l in lines]}
                            for pid, rc, hit, lines in verdicts]}
     finally:
@@ -96,6 +104,6 @@ with ThreadPoolExecutor(max_workers=a.workers) as ex:
             old = json.load(open(rp)) if os.path.exists(rp) else {}
             old.update(detail)
             json.dump(old, open(rp, "w"), indent=1, sort_keys=True)
-k = sum(1 for _, v in res if v == "killed")
-print(f"mutants killed {k}/{len(res)}")
+k = sum(1 for _, v in res if v in ("killed", "quiet"))
+print(f"{'equivalents quiet' if a.equivalents else 'mutants killed'} {k}/{len(res)}")
 sys.exit(0 if k == len(res) else 1)
